@@ -31,8 +31,8 @@ import (
 	"go.uber.org/zap"
 	"google.golang.org/grpc"
 	"google.golang.org/grpc/codes"
-	"google.golang.org/grpc/status"
 	"google.golang.org/grpc/reflection"
+	"google.golang.org/grpc/status"
 	"gopkg.in/yaml.v2"
 )
 
